@@ -637,12 +637,23 @@ r_expand(const Expansion &expansion, const vector_string &args,
   // any tokens.
   bool have_va_args = false;
   if (_variadic_param >= 0) {
+    // (Two or more variable arguments have at least a comma between them,
+    // even if each of them is empty.)
+    if (args.size() > (size_t)_variadic_param + 1) {
+      have_va_args = true;
+    }
     for (size_t ai = (size_t)_variadic_param; ai < args.size(); ++ai) {
       if (args[ai].find_first_not_of(" \t\r\n") != string::npos) {
         have_va_args = true;
       }
     }
   }
+
+  // The variable argument is left out if there is none, or if a macro that
+  // has no other parameter is invoked with empty parentheses.
+  bool va_args_absent = _variadic_param >= 0 &&
+    (args.size() <= (size_t)_variadic_param ||
+     (_variadic_param == 0 && args.size() == 1 && !have_va_args));
 
   for (const ExpansionNode &node : expansion) {
     bool paste = node._paste && !placemarker;
@@ -652,9 +663,10 @@ r_expand(const Expansion &expansion, const vector_string &args,
       int i = node._parm_number;
 
       string subst;
-      if (i == _variadic_param && node._paste && !have_va_args) {
+      if (i == _variadic_param && node._paste && va_args_absent) {
         // Special case GCC behavior: if __VA_ARGS__ is pasted to a comma and
-        // it has no tokens, the comma is removed.
+        // the variable argument is left out, the comma is removed.  (Not if
+        // an empty argument is passed for it.)
         if (!result.empty() && *result.rbegin() == ',') {
           result.resize(result.size() - 1);
         }
